@@ -106,6 +106,11 @@ pub fn main_one(prop: &'static dyn Prop, tier: Tier, seed: u64, gen: &str, n: u6
     let scratch = scratch_dir();
     let _ = std::fs::create_dir_all(&scratch);
     let mut rec = Rec::default();
+    // `miri-sample` is an alias of the property's interpreter-sized generator, unless the property has a generator of that name itself
+    let gen = match (gen, prop.miri_gen()) {
+        ("miri-sample", Some(g)) => g,
+        _ => gen,
+    };
     run_one_case(prop, &mut rec, tier, seed, gen, n, &scratch, true);
     write_rec(&rec, Path::new(out));
     let _ = std::fs::remove_dir_all(&scratch);
